@@ -5,7 +5,7 @@
    The connection level (H1/ConnH1.v: header extent, body readers, keep-alive reuse) is tied to src/h1.c by the running server under
    random TCP segmentation (props/h1conn.py <-> extracted run_conn). *)
 From Coq Require Import List ZArith.
-From LV Require Import Base.Bytes Gen.GenBurl Gen.GenH1 Url.UrlModel H1.H1Model H1.H1Proofs H1.H1Whole Resp.RespModel H1.ConnH1 H1.ConnH1Proofs.
+From LV Require Import Base.Bytes Gen.GenBurl Gen.GenH1 Url.UrlModel H1.H1Model H1.H1Proofs H1.H1Whole Resp.RespModel H1.ConnH1 H1.ConnH1Proofs H1.ConnMono.
 Import ListNotations.
 Local Open Scope N_scope.
 
@@ -91,6 +91,24 @@ Theorem overlong_trailers_close_the_connection : forall maxf line rest acc body 
   dechunk_req 1 maxf (line ++ rest) acc = ChDone body rest' ka cut -> ka = false.
 Proof. exact overlong_trailers_end_the_connection. Qed.
 Print Assumptions overlong_trailers_close_the_connection.
+
+(* what the chunked-body reader has decided is never revised by bytes that arrive later: a refusal stays the same refusal; a completed
+   body stays the same body, and, when the connection is kept alive, exactly the later bytes are added to what is left for the next
+   request.  So the outcome cannot depend on where TCP cut the stream once a verdict has been reached.  (A body that was cut short at
+   the trailer limit already ended the connection; only its leftover is unspecified.) *)
+Theorem chunked_verdict_is_never_revised : forall t maxf f s acc,
+  match dechunk_req f maxf s acc with
+  | ChInc => True
+  | ChBad st => dechunk_req f maxf (s ++ t) acc = ChBad st
+  | ChDone body rest ka cut => exists rest' ka', dechunk_req f maxf (s ++ t) acc = ChDone body rest' ka' cut
+                               /\ (ka = true -> ka' = true /\ rest' = rest ++ t)
+  end.
+Proof. exact dechunk_req_extends. Qed.
+Print Assumptions chunked_verdict_is_never_revised.
+
+Example a_verdict_to_keep : dechunk_req 5 8192 [51;13;10;97;98;99;13;10;48;13;10;13;10;71] [] = ChDone [97;98;99] [71] true false
+  /\ dechunk_req 5 8192 [51;13;10;97;98;99;88] [] = ChBad 400.
+Proof. vm_compute. split; reflexivity. Qed.
 
 (* non-vacuity: a chunked POST whose body is a complete GET request, followed by a real GET: two requests, not three *)
 Example smuggling_shape_is_two_requests :
